@@ -294,6 +294,11 @@ def candidate_contexts(doc, C):
     opts = getattr(C, 'options', {}) or {}
     if opts.get('fpy_rnd') == 'rne':
         return [fp.MPFloatContext(int(doc['args']['p']), fp.RM.RNE)]
+    if opts.get('fpy_rnd'):
+        # bounded dialect under another rounding mode (pyvc/fpyround.py): the option names it, or the parameter `rm`
+        rm = doc['args'].get('rm')
+        name = rm['member'] if isinstance(rm, dict) else str(opts['fpy_rnd']).upper()
+        return [fp.MPFloatContext(int(doc['args']['p']), getattr(fp.RM, name))]
     return [fp.REAL, fp.FP64, fp.MPFloatContext(2, fp.RM.RNE), fp.MPFloatContext(3, fp.RM.RNE), fp.MPFloatContext(3, fp.RM.RTZ),
             fp.MPFloatContext(5, fp.RM.RTP), fp.FP32, fp.INTEGER, fp.S1E4M3, fp.MPFixedContext(-3, fp.RM.RNE)]
 
